@@ -160,13 +160,13 @@ def run(ctx, col: Collector):
         specs = [
             (f'{SQLD}.column', 'render_column', r'(◦ ?)?"◦" ◦( PRIMARY KEY)?( AUTOINCREMENT)?( UNIQUE)?( NOT NULL)?( DEFAULT ◦)?',
              '["comment"] "name" type [PRIMARY KEY] [AUTOINCREMENT] [UNIQUE] [NOT NULL] [DEFAULT value]'),
-            (f'{SQLD}.enum', 'render_enum', r'(◦ ?)?CREATE TYPE ◦ AS ENUM \( ?◦\*? ?\) ?;', 'CREATE TYPE name AS ENUM (items);'),
+            (f'{SQLD}.enum', 'render_enum', r'(◦ ?)?CREATE TYPE ◦ AS ENUM \( ?(◦\*?[ ,]*)* ?\) ?;', 'CREATE TYPE name AS ENUM (items);'),
             (f'{SQLD}.enum', 'render_enum_item', r"(◦ ?)?'◦',?", "'item',"),
             (f'{SQLD}.index', 'create_components', r'(◦ ?)?CREATE (UNIQUE )?INDEX ("◦" )?(ON ◦ )?(USING ◦ )?\(◦\) ?;',
              'CREATE [UNIQUE] INDEX ["name"] ON table [USING type] (keys);'),
             (f'{SQLD}.index', 'render_pk', r'(◦ ?)?PRIMARY KEY \(◦\)', 'PRIMARY KEY (keys)'),
-            (f'{SQLD}.table', 'create_components', r'(◦ ?)?CREATE TABLE ◦ \( ?◦ ?\) ?;( ?◦\*)?', 'CREATE TABLE name (body); [index statements]'),
-            (f'{SQLD}.table', 'create_body', r'◦\*(, ?◦\*)*(, ?PRIMARY KEY \(◦\*?\))?', 'columns, pk indexes, inline references[, PRIMARY KEY (pk columns)]'),
+            (f'{SQLD}.table', 'create_components', r'(◦ ?)?CREATE TABLE ◦ \( ?◦ ?\) ?;( ?◦\*?)*', 'CREATE TABLE name (body); [index statements]'),
+            (f'{SQLD}.table', 'create_body', r'(◦\*?(, ?◦\*?)*)?(,? ?PRIMARY KEY \((◦\*?[ ,]*)*\))?', 'columns, pk indexes, inline references[, PRIMARY KEY (pk columns)]'),
             (f'{SQLD}.expression', 'render_expression', r'\(◦\)', '(expression text)'),
         ]
         for mod_, fn_, pat, what in specs:
@@ -301,6 +301,21 @@ def run(ctx, col: Collector):
             col.ok('C03-table', 'render_column_notes:qualified', 'each column note is a COMMENT ON COLUMN <qualified table>."column"', node=rn.node, file=rn.file)
     guarded(col, 'C03-table', 'table', table)
 
+    def partitions():
+        from .common import lossy_groupings
+        n = 0
+        bad = 0
+        for fid, fi in sorted(idx.funcs.items()):
+            if not fi.module.startswith(SQLD):
+                continue
+            n += 1
+            for node, why in lossy_groupings(idx, fi):
+                bad += 1
+                col.bad('C03-table', f'{fi.qualname}:partition-lossless', f'{fi.qualname}: {why} - elements of the model are missing from the DDL', node=node, file=fi.file)
+        if not bad:
+            col.ok('C03-table', 'sql-renderers:partition-lossless', f'no lossy grouping in {n} SQL renderer functions', file='pydbml/renderer/sql/default/table.py')
+    guarded(col, 'C03-table', 'partitions', partitions)
+
     # ---------------------------------------------------------------- C03-index
     def index():
         mod = f'{SQLD}.index'
@@ -409,6 +424,17 @@ def run(ctx, col: Collector):
         col.check(any(isinstance(c, ast.Call) and isinstance(c.func, ast.Attribute) and c.func.attr == 'render' and norm(c.func.value) == 'cls' for c in ast.walk(rd.node)),
                   'C03-db', 'render_db:renders-each', 'every element is rendered through the renderer', 'render_db does not call cls.render on the elements', node=rd.node, file=rd.file)
     guarded(col, 'C03-enum', 'enum-and-db', enum_db)
+
+    def ordering_keeps_all():
+        # "one CREATE TABLE per table": the ordering helper render_db passes the tables through must hand back every table exactly once (rule shared with C18)
+        sub = ctx.sub('c18', col.prop)
+        n = 0
+        for o in sub.obs:
+            if o.rule in ('C18-permutation', 'C18-once'):
+                n += 1
+                col.obs.append(type(o)(col.prop, 'C03-db', 'ordering:' + o.construct, o.status, o.msg, o.file, o.line, o.extra))
+        col.floor('C03-db', 'ordering obligations', n, 3)
+    guarded(col, 'C03-db', 'ordering', ordering_keeps_all)
 
 
 def derives_from(fn: ast.AST, e: ast.AST, path: str, depth: int = 0) -> bool:
